@@ -120,8 +120,47 @@ pub fn eval(op: &str, a: &[&str]) -> Option<String> {
                 Err(_) => "parse-err".into(),
             })
         }
+        // `get05 h|s T1,T2,.. BYTES`: the nine typed getters of `Header<T>` called DIRECTLY (the property's observe_at names
+        // them), on the main (h) or signature (s) header, for each listed tag number that is a variant of the tag enum
+        "get05" => {
+            let bytes = arg_bytes(a[2]);
+            let tags: Vec<u32> = a[1].split(',').filter_map(|t| t.parse().ok()).collect();
+            Some(match rpm::PackageMetadata::parse(&mut &bytes[..]) {
+                Ok(m) => tags.iter().map(|&t| if a[0] == "s" { getters(&m.signature, t) } else { getters(&m.header, t) }).collect::<Vec<_>>().join(" ; "),
+                Err(_) => "parse-err".into(),
+            })
+        }
+        // `lossy05 HEX`: std's String::from_utf8_lossy, the function header.rs decodes every string with
+        "lossy05" => Some(hx(String::from_utf8_lossy(&arg_bytes(a[0])).as_bytes())),
         _ => None,
     }
+}
+
+fn strs(r: Result<&[String], rpm::Error>) -> String {
+    match r { Ok(v) => format!("ok:[{}]", v.iter().map(|x| hx(x.as_bytes())).collect::<Vec<_>>().join(";")), Err(_) => "err".into() }
+}
+fn nums<T: std::fmt::Display>(r: Result<Vec<T>, rpm::Error>) -> String {
+    match r { Ok(v) => format!("ok:[{}]", v.iter().map(|x| x.to_string()).collect::<Vec<_>>().join(";")), Err(_) => "err".into() }
+}
+/// is `tag` a variant of the tag enum `T`? (`Tag: num::FromPrimitive`; the bound brings `from_u32` into scope)
+pub fn tag_of<T: rpm::Tag>(tag: u32) -> Option<T> { T::from_u32(tag) }
+
+pub fn getters<T: rpm::Tag>(h: &rpm::Header<T>, tag: u32) -> String {
+    let Some(t) = tag_of::<T>(tag) else { return format!("{}:notag", tag) };
+    format!(
+        "{}:present={} bin={} str={} i18n={} u16a={} u32={} u32a={} u64={} u64a={} stra={}",
+        tag,
+        h.entry_is_present(t),
+        match h.get_entry_data_as_binary(t) { Ok(v) => format!("ok:{}", hx(v)), Err(_) => "err".into() },
+        s(h.get_entry_data_as_string(t)),
+        s(h.get_entry_data_as_i18n_string(t)),
+        nums(h.get_entry_data_as_u16_array(t)),
+        n(h.get_entry_data_as_u32(t)),
+        nums(h.get_entry_data_as_u32_array(t)),
+        n(h.get_entry_data_as_u64(t)),
+        nums(h.get_entry_data_as_u64_array(t)),
+        strs(h.get_entry_data_as_string_array(t)),
+    )
 }
 
 // (tag, natural type) of everything the accessors read
@@ -157,7 +196,11 @@ fn data_for(rng: &mut Rng, tag: u32, ty: u32, count: usize) -> TData {
         1 | 2 | 7 => TData::Bytes(rng.bytes(count)),
         3 => TData::U16((0..count).map(|_| *rng.pick(&[0o100644u16, 0o040755, 0o120777, 0o010644, 0, 0xffff])).collect()),
         4 => TData::U32((0..count).map(|_| match tag {
-            1116 => rng.below(4) as u32,                       // dir indexes: mostly in range
+            // dir indexes: mostly in range (4 directories in a consistent group); one in twelve from the edges n - 1, n and
+            // the values a narrowing cast / a modulus / a sign would fold back into range (2^16 + i, 2^31 + i, 2^32 - 4 + i)
+            1116 => if rng.chance(11, 12) { rng.below(4) as u32 } else {
+                *rng.pick(&[3u32, 4, 5, 0x1_0000, 0x1_0001, 0x1_0003, 0x1_0004, 0x8000_0000, 0x8000_0001, 0x7fff_ffff, 0xffff_fffc, 0xffff_fffd, 0xffff_ffff, 0x0100_0000, 0x0001_0100])
+            },
             5011 => *rng.pick(&[8u32, 8, 8, 8, 8, 8, 8, 1, 9, 10, 11, 12, 14, 0, 99]),
             _ => rng.next() as u32 >> rng.below(32),
         }).collect()),
@@ -263,8 +306,35 @@ pub fn gen_typed(rng: &mut Rng) -> Vec<u8> {
         let d = data_for(rng, 274, ty, nfiles);
         sig.push(274, ty, &d); // RPMSIGTAG_FILESIGNATURES
     }
+    // non-canonical index entries for the tags the accessors read (one header in six): the VALUES must still be what the
+    // store holds at the offset for the count the entry states
+    if rng.chance(1, 6) { noncanon(rng, &mut hdr); }
     let lead = gen_lead(rng, false);
     assemble(&lead, &sig, 0, &hdr, &[])
+}
+
+/// one entry made non-canonical: offset shared with another entry, count one off (array shorter / reaching into the
+/// next entry's bytes), integers at an unaligned offset, an array overlapping its own tail, STRING with a count != 1
+pub fn noncanon(rng: &mut Rng, h: &mut GHeader) {
+    if h.entries.is_empty() { return; }
+    let i = rng.below(h.entries.len() as u64) as usize;
+    let esz = |ty: u32| -> i32 { match ty { 3 => 2, 4 => 4, 5 => 8, _ => 1 } };
+    match rng.below(6) {
+        0 => {
+            // same offset as another entry (preferably of the same type)
+            let ty = h.entries[i].ty;
+            let same: Vec<usize> = (0..h.entries.len()).filter(|&j| j != i && h.entries[j].ty == ty).collect();
+            let j = if same.is_empty() { rng.below(h.entries.len() as u64) as usize } else { *rng.pick(&same) };
+            h.entries[i].off = h.entries[j].off;
+        }
+        1 => h.entries[i].cnt = h.entries[i].cnt.wrapping_add(1),
+        2 => h.entries[i].cnt = h.entries[i].cnt.saturating_sub(1),
+        3 => h.entries[i].off += 1 + rng.below(3) as i32,                      // unaligned integers / string tail
+        4 => h.entries[i].off += esz(h.entries[i].ty),                         // overlaps its own second item
+        _ => {
+            if let Some(e) = h.entries.iter_mut().find(|e| e.ty == 6) { e.cnt = *rng.pick(&[0u32, 2, 3]); }
+        }
+    }
 }
 
 pub fn gen(ctx: &mut Ctx) {
@@ -281,6 +351,62 @@ pub fn gen(ctx: &mut Ctx) {
     for i in 0..n {
         let bytes = if i % 8 == 7 { gen_package_wf(&mut ctx.rng) } else { gen_typed(&mut ctx.rng) };
         ctx.req(&format!("acc {}", hx(&bytes)));
+    }
+    // the typed getters called directly, on the tags the accessors read and on arbitrary tags of both enums
+    let n = ctx.q(1_600u64, 60_000) / sn;
+    for i in 0..n {
+        let bytes = if i % 4 == 3 { gen_package_wf(&mut ctx.rng) } else { gen_typed(&mut ctx.rng) };
+        let sig = i % 5 == 4;
+        let mut tags: Vec<u32> = Vec::new();
+        while tags.len() < 6 {
+            let t = if sig {
+                *ctx.rng.pick(&[62u32, 63, 100, 257, 259, 261, 262, 264, 266, 267, 268, 269, 270, 271, 273, 274, 275, 276, 277, 278, 1000, 1002, 1004, 1005, 1007, 1008])
+            } else if ctx.rng.chance(5, 6) { ctx.rng.pick(TAGS).0 } else { 1000 + ctx.rng.below(60) as u32 };
+            let valid = if sig { tag_of::<rpm::IndexSignatureTag>(t).is_some() } else { tag_of::<rpm::IndexTag>(t).is_some() };
+            if valid && !tags.contains(&t) { tags.push(t); }
+        }
+        let ts = tags.iter().map(|t| t.to_string()).collect::<Vec<_>>().join(",");
+        ctx.req(&format!("get05 {} {} {}", if sig { "s" } else { "h" }, ts, hx(&bytes)));
+    }
+    gen_lossy(ctx);
+}
+
+/// `String::from_utf8_lossy` (AUDIT2 b1): every (lead, second byte) pair, the restricted second-byte ranges after
+/// E0 / ED / F0 / F4 with every third / fourth byte class, every truncation at the end of the input, random soups.
+/// Sequences are separated by an ASCII letter (never part of a multi-byte sequence, so each one is decoded on its own).
+fn gen_lossy(ctx: &mut Ctx) {
+    let (si, sn) = ctx.shard;
+    const EDGE: &[u8] = &[0x00, 0x41, 0x7f, 0x80, 0x8f, 0x90, 0x9f, 0xa0, 0xbf, 0xc0, 0xc1, 0xc2, 0xdf, 0xe0, 0xed, 0xef, 0xf0, 0xf4, 0xf5, 0xff];
+    const LEADS: &[u8] = &[0xc2, 0xdf, 0xe0, 0xe1, 0xec, 0xed, 0xee, 0xef, 0xf0, 0xf1, 0xf3, 0xf4];
+    if si == 0 {
+        for b0 in 0x80u32..=0xff {
+            let mut v = Vec::new();
+            for b1 in 0u32..=0xff { v.extend_from_slice(&[b0 as u8, b1 as u8, b'z']); }
+            ctx.req(&format!("lossy05 {}", hx(&v)));
+        }
+        for &b0 in LEADS {
+            let mut v3 = Vec::new();
+            let mut v4 = Vec::new();
+            for &b1 in EDGE { for &b2 in EDGE {
+                v3.extend_from_slice(&[b0, b1, b2, b'z']);
+                for &b3 in &[0x7fu8, 0x80, 0xbf, 0xc0, 0xf0] { v4.extend_from_slice(&[b0, b1, b2, b3, b'z']); }
+            } }
+            ctx.req(&format!("lossy05 {}", hx(&v3)));
+            ctx.req(&format!("lossy05 {}", hx(&v4)));
+            // truncations: the sequence is the END of the input
+            ctx.req(&format!("lossy05 {}", hx(&[b'a', b0])));
+            for &b1 in EDGE {
+                ctx.req(&format!("lossy05 {}", hx(&[b0, b1])));
+                for &b2 in &[0x80u8, 0xbf, 0x7f, 0xc2] { ctx.req(&format!("lossy05 {}", hx(&[b0, b1, b2]))); }
+            }
+        }
+        ctx.req("lossy05 -");
+    }
+    let n = ctx.q(600u64, 20_000) / sn;
+    for _ in 0..n {
+        let len = 1 + ctx.rng.below(12) as usize;
+        let v: Vec<u8> = (0..len).map(|_| if ctx.rng.chance(1, 6) { ctx.rng.next() as u8 } else { *ctx.rng.pick(EDGE) }).collect();
+        ctx.req(&format!("lossy05 {}", hx(&v)));
     }
 }
 
